@@ -529,18 +529,25 @@ func SearchCorr(from Point, target, avoid func(ssa.Instruction) bool, known map[
 			// a phi of booleans in this block: its value is the operand of the edge the path came by
 			cv := iff.Cond
 			forced := -1
-			if phi, isPhi := cv.(*ssa.Phi); isPhi && phi.Block() == b && it.pred != nil {
-				for pi, p := range b.Preds {
-					if p == it.pred {
-						cv = phi.Edges[pi]
+			if inner, ineg := Not(cv); true {
+				if phi, isPhi := inner.(*ssa.Phi); isPhi && phi.Block() == b && it.pred != nil {
+					var ev ssa.Value
+					for pi, p := range b.Preds {
+						if p == it.pred {
+							ev = phi.Edges[pi]
+						}
 					}
-				}
-				if c, isC := cv.(*ssa.Const); isC {
-					if bv, okb := BoolConst(c); okb {
-						if bv {
-							forced = 0
-						} else {
-							forced = 1
+					if ev != nil {
+						if c, isC := ev.(*ssa.Const); isC {
+							if bv, okb := BoolConst(c); okb {
+								if bv != ineg {
+									forced = 0
+								} else {
+									forced = 1
+								}
+							}
+						} else if !ineg {
+							cv = ev
 						}
 					}
 				}
